@@ -23,6 +23,7 @@ if _REPO:
 warnings.filterwarnings('ignore', category=SyntaxWarning)
 
 from openpyxl import Workbook  # noqa: E402
+from openpyxl.utils import column_index_from_string as column_index  # noqa: E402
 from openpyxl.worksheet.formula import ArrayFormula  # noqa: E402
 
 import excel2pycl  # noqa: E402
